@@ -1,4 +1,5 @@
 import TerwayModel.Model.Bandwidth
+import TerwayModel.Proofs.StoredRec
 /-
 C15 — user-controlled input can be rejected but can never crash a component (bandwidth part), and
 well-formed bandwidth values are accepted with or without a unit and scale monotonically.
@@ -182,7 +183,26 @@ theorem c15_unit_table :
     mult ['T'] = some Gen.bwTera ∧ mult ['T','B'] = some Gen.bwTera ∧ mult ['T','I','B'] = some Gen.bwTera ∧
     mult ['X'] = none ∧ mult ['K','I'] = none := by decide
 
+/-! ## stored records: the start-up filter -/
+
+/-- **No stored record makes the daemon's start-up filter index out of range**, whatever items the record holds and
+    whatever is attached.  Proved for the code as it is now: the regenerated fact `filterRechecksLen` must be 1
+    (the loop that removes stale items in place re-reads the slice length). -/
+theorem c15_stored_filter_total (att : Stored.Attached) (rs : List Stored.Item) : Stored.filter att rs ≠ none := by
+  have hfact : Gen.filterRechecksLen = 1 := rfl
+  unfold Stored.filter Stored.filterWith
+  rw [hfact]
+  obtain ⟨out, h⟩ := Stored.loop_recheck_some att (rs.length + 1) rs.length 0 rs
+  simp [h]
+
+/-- the hypothesis is needed: with the bound fixed at loop entry (`for j := range items`) a record with a stale
+    item that is not the last one crashes the daemon at every start -/
+theorem c15_stored_filter_range_loop_panics :
+    Stored.filterWith false [] [⟨true, "eni-gone", "a"⟩, ⟨true, "eni-gone", "b"⟩] = none := by decide
+
 /-! ## non-vacuity -/
+example : Stored.filter [("eni-1", "m1")] [⟨true, "eni-gone", "a"⟩, ⟨true, "eni-1", "b"⟩, ⟨true, "", "m1.10.0.0.1"⟩, ⟨true, "", "m2.10.0.0.2"⟩] =
+    some [⟨true, "eni-1", "b"⟩, ⟨true, "", "m1.10.0.0.1"⟩] := by decide
 example : parseBandwidth asciiCfg ['1','0','0','0'] = .ok 1000 := by decide
 example : parseBandwidth asciiCfg ['1','0','m'] = .ok 10485760 := by decide
 example : parseBandwidth asciiCfg [] = .err := by decide
